@@ -273,6 +273,12 @@ func (e *Env) Governance(t *rapid.T) *transaction.Transaction {
 	for i := 0; i < n; i++ {
 		k := tg.keys[rapid.IntRange(0, len(tg.keys)-1).Draw(t, "key")]
 		fields[k] = rapid.SampledFrom([]string{"1", "5", "0.5", "100", "x", "-1", "1h", "true", "", "99999999999999999999", "0.1", "3"}).Draw(t, "val")
+		if rapid.IntRange(0, 7).Draw(t, "blankTwin") == 5 {
+			// the same name once more with a surrounding blank and another value: whatever the contract makes of it,
+			// it must make the same of it on every node
+			fields[rapid.SampledFrom([]string{" " + k, k + " "}).Draw(t, "blankSpelling")] = rapid.SampledFrom([]string{"2", "7", "0.25", "200"}).Draw(t, "twinVal")
+			e.note("governance/blank-twin")
+		}
 	}
 	txn := h.Call(from, tg.sc, tg.fn, map[string]interface{}{"fields": fields}, 0, fee(t))
 	e.note("governance/" + tg.fn)
